@@ -14,6 +14,9 @@ import (
 const (
 	packetWindowMicroseconds  = 500_000
 	maxMissingSequenceNumbers = 0x7FFE
+	// maxFeedbackSize bounds the marshalled size of one feedback packet: rtcp
+	// computes the size of a TransportLayerCC in 16 bits.
+	maxFeedbackSize = 0xFFFC
 )
 
 // Recorder records incoming RTP packets and their delays and creates
@@ -251,6 +254,13 @@ func (f *feedback) addReceived(sequenceNumber uint16, timestampUS int64) bool {
 		return false
 	}
 	deltaUSRounded := delta250US * rtcp.TypeTCCDeltaScaleFactor
+
+	// The packet would grow beyond what can be marshalled, need to create new packet.
+	missing := int(sequenceNumber - f.nextSequenceNumber)
+	if f.sequenceNumberCount > 0 &&
+		20+2*(len(f.chunks)+missing/maxRunLengthCap+4)+f.len+2 > maxFeedbackSize {
+		return false
+	}
 
 	for ; f.nextSequenceNumber != sequenceNumber; f.nextSequenceNumber++ {
 		if !f.lastChunk.canAdd(rtcp.TypeTCCPacketNotReceived) {
